@@ -200,6 +200,11 @@ func (r *rdbdriver) GetLocationByMap(ipnet *net.IPNet, mapID []byte, context Con
 	if err != nil {
 		return nil, 0, err
 	}
+	if len(foundKey) != len(fullKey) || !bytes.Equal(foundKey[:6], fullKey[:6]) {
+		// the closest key belongs to another map (or is not a range point at all):
+		// this map has no range point at or before the address
+		return nil, 0, nil
+	}
 	if len(foundVal) == 0 {
 		return nil, 0, nil // consistent with the return at the end of cdbdriver.go:/GetLocationByMap
 	}
